@@ -512,6 +512,14 @@ fn gen_program2(mode: &str, seed: u64, idx: u64, thorough: bool, batchy: bool) -
             p.durabilities = true;
             // values above the journal writer's 8 KiB buffer are written with their own write() call
             p.max_val = if rng.chance(1, 2) { 20_000 } else { 2_000 };
+            // batches / transactions over several keyspaces with explicit durability, and rotations + worker steps after
+            // them: a commit that failed in its flush / sync step must not leave items behind that a later flush of one
+            // of its keyspaces makes durable
+            p.n_ks = rng.range(2, 3) as u8;
+            p.w_batch = 20;
+            p.w_tx = 10;
+            p.w_rotate = 10;
+            p.w_step = 10;
             manual = rng.chance(1, 3);
             p.w_ingest = 0;
             p.w_reopen = 0;
